@@ -68,12 +68,15 @@ class Err:
 ERR = Err()
 
 
+BYTES_LEAVES = [False]      # a pass in which every leaf v is the bytes object b'<v>' (a leaf like str, not a sequence to walk into)
+
+
 def to_py(t, arrays=False):
   """Spec tree -> Python data.  With arrays=True lists of leaves become numpy arrays."""
   import numpy as np
   k = t['k']
   if k == 'leaf':
-    return t['v']
+    return str(t['v']).encode() if BYTES_LEAVES[0] else t['v']
   if k == 'dict':
     return {pk(n): to_py(c, arrays) for n, c in zip(t['keys'], t['kids'])}
   kids = [to_py(c, arrays) for c in t['kids']]
@@ -103,6 +106,8 @@ def canon(x):
     return ('tuple', tuple(canon(v) for v in x))
   if isinstance(x, (int, np.integer)):
     return int(x)
+  if isinstance(x, bytes):
+    return ('bytes', x.decode())
   return ('other', repr(x))
 
 
@@ -151,7 +156,9 @@ def leaf_fn(x):
   import numpy as np
   if isinstance(x, (int, np.integer)):
     return int(x) + 10
-  return 99
+  if isinstance(x, bytes):
+    return str(int(x.decode()) + 10).encode()
+  return b'99' if BYTES_LEAVES[0] else 99
 
 
 # ------------------------------------------------------------------ replay
@@ -228,9 +235,9 @@ def _check_view(chk, data, want_leaves, want_applied, ctx, tag):
   return True
 
 
-def _replay(chk, h, arrays):
+def _replay(chk, h, arrays, tag=None):
   from ml_metrics._src.chainables import tree
-  tag = 'arrays' if arrays else 'plain'
+  tag = tag or ('arrays' if arrays else 'plain')
   data = to_py(h['tree0'], arrays)
   ctx = dict(kind='treeview', history=h, arrays=arrays)
   if not _check_view(chk, data, h['leaves0'], h['applied0'], dict(ctx, step=-1), tag):
@@ -323,9 +330,17 @@ def body(chk):
   chk.coverage['rejected_sets'] = err_sets
   if not ok_sets or not err_sets:
     chk.machinery_failure('behaviours do not exercise both successful and rejected sets')
+  n_bytes = [0]
   for h in hs:
     _replay(chk, h, arrays=False)
     _replay(chk, h, arrays=True)
+    if n_bytes[0] < (400 if chk.tier == 'quick' else 4000):
+      n_bytes[0] += 1
+      BYTES_LEAVES[0] = True
+      try:
+        _replay(chk, h, arrays=False, tag='bytes-leaves')
+      finally:
+        BYTES_LEAVES[0] = False
     chk.replayed()
   chk.coverage['exhaustive'] = True
   small = [h for h in hs if len(str(h)) < 1500 and h['steps'] and h['steps'][0]['result']['k'] != 'err']
